@@ -75,3 +75,22 @@ Proof. vm_compute. reflexivity. Qed.   (* chunk_size 2.5 *)
 Example C14_ex_splits : chunk_tasks (FracOps 13) true true [1;2;3;4;5;6;7;8;9;10;11;12;13;14;15] None None (Some 13)
   = Ok [[1;2];[3];[4];[5];[6];[7];[8;9];[10];[11];[12];[13];[14];[15]].
 Proof. vm_compute. reflexivity. Qed.
+
+(* (6) the chunk size the pool hands to chunk_tasks (params.check_map_parameters, translated from the source): an
+   explicit chunk_size is used as given -- also when n_splits is passed too --; otherwise n_tasks / n_splits; otherwise
+   n_tasks / (64 * n_jobs), or 4 when the length is unknown *)
+From Mpv Require Import GenParams.
+Theorem C14_explicit_chunk_size_is_kept :
+  forall (num : Type) (N : numops num) n_jobs n_tasks (cs : num) n_splits,
+  derive_chunk_size N n_jobs n_tasks (Some cs) n_splits = Ok cs.
+Proof. reflexivity. Qed.
+Print Assumptions C14_explicit_chunk_size_is_kept.
+
+Theorem C14_derived_chunk_size :
+  forall (num : Type) (N : numops num) n_jobs nt ns,
+  derive_chunk_size N n_jobs (Some nt) None (Some ns) = Ok (ndivZ N nt ns) /\
+  derive_chunk_size N n_jobs (Some nt) None None = Ok (ndivZ N nt (n_jobs * 64)) /\
+  derive_chunk_size N n_jobs None None None = Ok (nofZ N 4) /\
+  derive_chunk_size N n_jobs None None (Some ns) = Ok (nofZ N 4).
+Proof. intros. repeat split; reflexivity. Qed.
+Print Assumptions C14_derived_chunk_size.
